@@ -195,19 +195,25 @@ theorem runRange_keepsIf (OK : List Instr → Prop) (Q : Seg → Prop) (hQ : Act
   exact runPasses_ind (fun x => Q x.seg) passes _ true lo hi fuel
     (fun k hk c1 c2 h1 e1 => runPassDir_keepsIf OK Q hQ hR _ (hpo k hk) c1 fuel true h1 e1) (c.beginRange (c.seg.numGlyphs * 64)) h e
 
-theorem bidiStep_keeps (Q : Seg → Prop) (hR : ReverseKeeps Q) (c : Ctx) (h : Q c.seg) : Q (bidiStep c).seg := by
-  unfold bidiStep
+/-- the property survives a glyph change of one slot (mirroring) -/
+def GlyphKeeps (Q : Seg → Prop) : Prop := ∀ (gadv : Array Int) (s : Seg) (i g : Nat), Q s → Q (s.upd i fun sl => sl.setGlyph gadv g)
+
+theorem bidiStep_keeps (Q : Seg → Prop) (hR : ReverseKeeps Q) (hG : GlyphKeeps Q) (c : Ctx) (aMirror : Nat) (h : Q c.seg) : Q (bidiStep c aMirror).seg :=
+  bidiStep_ind Q aMirror hR hG c h
+
+theorem startMirror_keeps (Q : Seg → Prop) (hG : GlyphKeeps Q) (font : Font) (c : Ctx) (h : Q c.seg) : Q (startMirror font c).seg := by
+  unfold startMirror
   split
-  · exact hR _ _ h
+  · exact doMirror_ind Q c font.aMirror (fun s i g hs => hG _ s i g hs) h
   · exact h
 
-theorem runPhase_keepsIf (OK : List Instr → Prop) (Q : Seg → Prop) (hQ : ActionKeepsIf OK Q) (hR : ReverseKeeps Q) (passes : Array PassT) (bPass : Nat) (c : Ctx)
+theorem runPhase_keepsIf (OK : List Instr → Prop) (Q : Seg → Prop) (hQ : ActionKeepsIf OK Q) (hR : ReverseKeeps Q) (hG : GlyphKeeps Q) (passes : Array PassT) (bPass : Nat) (c : Ctx)
     (lo hi : Nat) (dobidi : Bool) (fuel : Nat)
-    (hpo : ∀ k, lo ≤ k → k < hi → PassOK OK (passes.getD k default)) (h : Q c.seg)
-    {c' : Ctx} (e : runPhase passes bPass c lo hi dobidi fuel = .ok (some c')) : Q c'.seg :=
-  runPhase_ind (fun x => Q x.seg) passes bPass lo hi dobidi fuel
+    (hpo : ∀ k, lo ≤ k → k < hi → PassOK OK (passes.getD k default)) (h : Q c.seg) {aMirror : Nat}
+    {c' : Ctx} (e : runPhase passes bPass c lo hi dobidi fuel aMirror = .ok (some c')) : Q c'.seg :=
+  runPhase_ind (fun x => Q x.seg) passes bPass lo hi dobidi fuel aMirror
     (fun ar k h1k h2k c1 c2 h1 e1 => runPassDir_keepsIf OK Q hQ hR _ (hpo k h1k h2k) c1 fuel ar h1 e1)
-    (fun x l hx => hx) (fun x hx => bidiStep_keeps Q hR x hx) c h e
+    (fun x l hx => hx) (fun x hx => bidiStep_keeps Q hR hG x aMirror hx) c h e
 
 /-! the unconditional versions: every rule action keeps the property -/
 
@@ -227,9 +233,12 @@ theorem runRange_keeps (Q : Seg → Prop) (hQ : ActionKeeps Q) (hR : ReverseKeep
     {c' : Ctx} (e : runRange passes c lo hi fuel = .ok (some c')) : Q c'.seg :=
   runRange_keepsIf (fun _ => True) Q hQ.toIf hR passes c lo hi fuel (fun _ _ _ _ _ => trivial) h e
 
-theorem runPhase_keeps (Q : Seg → Prop) (hQ : ActionKeeps Q) (hR : ReverseKeeps Q) (passes : Array PassT) (bPass : Nat) (c : Ctx) (lo hi : Nat) (dobidi : Bool) (fuel : Nat)
-    (h : Q c.seg) {c' : Ctx} (e : runPhase passes bPass c lo hi dobidi fuel = .ok (some c')) : Q c'.seg :=
-  runPhase_keepsIf (fun _ => True) Q hQ.toIf hR passes bPass c lo hi dobidi fuel (fun _ _ _ _ _ _ => trivial) h e
+theorem runPhase_keeps (Q : Seg → Prop) (hQ : ActionKeeps Q) (hR : ReverseKeeps Q) (hG : GlyphKeeps Q) (passes : Array PassT) (bPass : Nat) (c : Ctx) (lo hi : Nat) (dobidi : Bool) (fuel : Nat)
+    (h : Q c.seg) {aMirror : Nat} {c' : Ctx} (e : runPhase passes bPass c lo hi dobidi fuel aMirror = .ok (some c')) : Q c'.seg :=
+  runPhase_keepsIf (fun _ => True) Q hQ.toIf hR hG passes bPass c lo hi dobidi fuel (fun _ _ _ _ _ _ => trivial) h e
+
+theorem glyph_assoc (n : Int) : GlyphKeeps (AssocOK n) :=
+  fun gadv s i g h => h.updKeep _ _ (fun _ => ⟨rfl, rfl, rfl⟩)
 
 theorem reverse_assoc (n : Int) : ReverseKeeps (AssocOK n) := by
   intro s mark h
@@ -540,7 +549,7 @@ theorem shape_assoc (font : Font) (text : List Nat) (fuel : Nat) (dir : Nat) (hn
     · cases e
     · cases e
     · rename_i c1 h1
-      have w1 : AssocOK (text.length : Int) c1.seg := runPhase_keeps _ hk (reverse_assoc _) _ _ _ _ _ _ _ (initSeg_assoc font text hn dir) h1
+      have w1 : AssocOK (text.length : Int) c1.seg := runPhase_keeps _ hk (reverse_assoc _) (glyph_assoc _) _ _ _ _ _ _ _ (startMirror_keeps _ (glyph_assoc _) font _ (initSeg_assoc font text hn dir)) h1
       split at e
       · cases e
       · rename_i seg' ci' hre
@@ -551,6 +560,6 @@ theorem shape_assoc (font : Font) (text : List Nat) (fuel : Nat) (dir : Nat) (hn
         · rename_i c2 h2
           simp only [Except.ok.injEq, Option.some.injEq, Prod.mk.injEq] at e
           rw [← e.1]
-          exact runPhase_keeps _ hk (reverse_assoc _) _ _ _ _ _ _ _ w2 h2
+          exact runPhase_keeps _ hk (reverse_assoc _) (glyph_assoc _) _ _ _ _ _ _ _ w2 h2
 
 end GrVerif.Pass
